@@ -145,6 +145,49 @@ fn toggle_case(ctx: &Ctx, m128: bool, rate: usize, volume: u8, bit: u8, t: usize
     (first_change.unwrap_or(99999) as u64) << 20 | (rate as u64)
 }
 
+/// Free-running loop of long instructions (23-T INC (IX+0), 19-T EX (SP),HL, 12-T JR) so that frame
+/// ends are straddled with every overrun up to 22 T; drained at every frame boundary: exactly
+/// floor(rate/50) samples per frame at every rate (at 384 kHz a sample lasts 9.1 T, less than an
+/// overrun), all within bounds.
+fn long_instruction_frames(ctx: &Ctx, m128: bool, rate: usize) {
+    let spf = rate / 50;
+    let mut e = machine(m128, rate, 100, true, false);
+    // DI; LD IX,A000; loop: INC (IX+0); EX (SP),HL; JR loop   (54 T per pass, 69888 and 70908 are no multiples)
+    rig::poke(&mut e, 0x8000, &[0xF3, 0xDD, 0x21, 0x00, 0xA0, 0xDD, 0x34, 0x00, 0xE3, 0x18, 0xFA]);
+    let mut r = RegsView::default();
+    r.pc = 0x8000;
+    r.sp = 0xBF00;
+    rig::set_regs(e.verif_cpu(), &r);
+    let case = json!({"kind":"long-instr","m128":m128,"rate":rate});
+    let mut overruns = std::collections::BTreeSet::new();
+    for f in 0..60 {
+        let f0 = e.verif_total_frames();
+        let mut guard = 0;
+        while e.verif_total_frames() == f0 && guard < 100_000 {
+            rig::step(&mut e);
+            guard += 1;
+        }
+        overruns.insert(e.verif_frame_clocks());
+        let got = rig::drain_audio(&mut e);
+        ctx.add_eval(1);
+        if got.len() != spf {
+            ctx.violation(
+                &format!("C19:samples-per-frame:long-instructions:{}", if m128 { "128k" } else { "48k" }),
+                &format!("rate {}: frame {} of a free-running loop of 23/19/12-T instructions (the frame end was overrun by {} T) delivered {} samples when drained at the frame boundary, expected exactly floor(rate/50) = {}", rate, f, e.verif_frame_clocks(), got.len(), spf),
+                case,
+            );
+            return;
+        }
+        for s in got.iter() {
+            if !s.0.is_finite() || !s.1.is_finite() || s.0.abs() > 2.175 + 1e-6 {
+                ctx.violation("C19:sample-out-of-bounds:long-instructions", &format!("rate {}: sample {:?}", rate, s), case);
+                return;
+            }
+        }
+    }
+    ctx.outcome(0x1060_0000 ^ (rate as u64) << 8 ^ overruns.len() as u64);
+}
+
 fn drain_schedules(ctx: &Ctx, m128: bool, rate: usize, ay: bool) {
     let sp = spec(m128);
     let spf = rate / 50;
@@ -226,7 +269,9 @@ pub fn run(tier: Tier, seed: u64, replay: Option<String>) -> i32 {
         let c = &v["case"];
         let m128 = c["m128"].as_bool().unwrap_or(false);
         let rate = c["rate"].as_u64().unwrap_or(44100) as usize;
-        if c["kind"] == "toggle" {
+        if c["kind"] == "long-instr" {
+            long_instruction_frames(&ctx, m128, rate);
+        } else if c["kind"] == "toggle" {
             toggle_case(&ctx, m128, rate, c["volume"].as_u64().unwrap_or(100) as u8, c["bit"].as_u64().unwrap_or(16) as u8, c["t"].as_u64().unwrap_or(0) as usize, c["second"].as_u64().map(|x| x as usize));
         } else {
             drain_schedules(&ctx, m128, rate, c["ay"].as_bool().unwrap_or(false));
@@ -277,13 +322,18 @@ pub fn run(tier: Tier, seed: u64, replay: Option<String>) -> i32 {
         let (m128, rate, ay) = djobs[j];
         drain_schedules(&ctx, m128, rate, ay);
     });
-    ctx.add_nontrivial(jobs.len() as u64 + djobs.len() as u64 * 64);
+    let ljobs: Vec<(bool, usize)> = [false, true].iter().flat_map(|m| RATES.iter().map(move |r| (*m, *r))).collect();
+    par_for(ljobs.len(), 1, |j| {
+        let (m128, rate) = ljobs[j];
+        long_instruction_frames(&ctx, m128, rate);
+    });
+    ctx.add_nontrivial(jobs.len() as u64 + djobs.len() as u64 * 64 + ljobs.len() as u64);
     ctx.sample(json!({"rate":44100,"m128":false,"toggle_bit":16,"t":34944,"expected_edge_sample":"441 +- 1"}));
     ctx.note("toggle_cases", json!(jobs.len()));
     ctx.note("drain_patterns", json!(djobs.len() * 64));
     ctx.note("not_judged", json!("which frame the few samples belong to that are produced while the last instruction of a frame runs into the next one (they are counted by emulated time)"));
     ctx.finish(
-        "sample rates {8000,8001,11025,22050,44100,44099,48000,96000,192000,384000} x {48K,128K}: one OUT (FE) toggling bit 4 with its start at every T of the frame (quick: first, middle and last 256 T), sparser sets for bit 3, volumes {0,1,200} and two toggles closer than one sample; per drained frame floor(rate/50) samples (by emulated time), every sample before/after the edge window equals the level set, the edge within one sample of the OUT, all samples finite and bounded; all 64 drain/no-drain patterns over 6 frames x rates x machines x AY off / on and sounding (three tones + noise at full volume): queue always below two frames' worth, every sample finite and within (0.6 + 3.75) x volume/200. distinct_nontrivial = cases",
+        "sample rates {8000,8001,11025,22050,44100,44099,48000,96000,192000,384000} x {48K,128K}: one OUT (FE) toggling bit 4 with its start at every T of the frame (quick: first, middle and last 256 T), sparser sets for bit 3, volumes {0,1,200} and two toggles closer than one sample; per drained frame floor(rate/50) samples (by emulated time), every sample before/after the edge window equals the level set, the edge within one sample of the OUT, all samples finite and bounded; all 64 drain/no-drain patterns over 6 frames x rates x machines x AY off / on and sounding (three tones + noise at full volume): queue always below two frames' worth, every sample finite and within (0.6 + 3.75) x volume/200; a free-running loop of 23/19/12-T instructions over 60 frames (frame ends overrun by varying amounts), drained at every boundary: exactly floor(rate/50) samples per frame at every rate. distinct_nontrivial = cases",
         false,
         &["frame clock placed through the hook before each OUT; remaining frame is idle loop", "beeper-only machines for the edge test so the AY path does not blur levels"],
     )
